@@ -15,7 +15,7 @@ PLAIN = ["2 + 3", "ans * 2", "_ + 1", "ANS^2", "3 m", "5 kg * 2", "ans + ans", "
          "10 km / 5 m", "1.5 * 4", "(ans)", "-ans", "3 m * ans", "ans m", "sqrt(16)", "sqrt(ans^2)", "7 mod 3",
          "1 << 10", "0x10 + ans", "100 percent", "ans % ", "3 newton meter", "1e30", "_ _", "ans - ans", "pi", "1 foot"]
 TIME = ["2 hours", "90 minutes + 30 s", "ans s", "1 year", "3 s * 2"]
-CONV = ["ans -> ft", "3 m -> ft", "10 -> digits 3", "1/3 -> frac", "ans -> base 2", "ans -> m", "1 mile -> km",
+CONV = ["1/7 -> digits 30", "22/7 -> frac", "123456 m -> sci", "ans -> digits", "ans -> fraction", "ans -> engineering", "7 -> ratio", "ans -> ft", "3 m -> ft", "10 -> digits 3", "1/3 -> frac", "ans -> base 2", "ans -> m", "1 mile -> km",
         "ans -> sci", "100 degC -> degF", "2 km -> mi;ft", "10 km -> potato = 3 m", "ans -> kg", "ans -> eng",
         "5 kg water -> liter", "ans to m", "1 year -> days"]
 DEFS = ["meter", "kg", "foot", "kilometer", "speed", "area", "gold", "c", "potato"]
@@ -120,6 +120,9 @@ def work(idx, _chunk, seed, n_hist, check_state_every):
             kind = rep.get("kind")
             after = a.get("prev")
             if not save:
+                want = [model_prev]
+            elif k == "conv":
+                # the statement is about the query, not about which reply variant it happens to produce
                 want = [model_prev]
             elif kind == "number" and rep["value"]["raw"] is not None:
                 want = [rep["value"]["raw"]]
